@@ -43,11 +43,16 @@ case "$ID" in
     EVD=evidence; [ "$VERIF_REPO" != /repo ] && EVD=/var/tmp/verif-evidence-alt/$(basename $VERIF_REPO)
     rm -f $EVD/parts/$ID.e2.json
     PARTDIR=${lid}e2; [ -d seq/$PARTDIR ] || PARTDIR=$lid
+    rc=0
     if [ -d seq/$PARTDIR ]; then
       VERIF_PART=e2 run_seq $PARTDIR; rc=$?
-      [ $rc -le 1 ] || exit $rc
     fi
-    exec $B/e1 run $ID --tier $TIER ;;
+    # the schedule part runs even when the content part could not decide (exit 2, e.g. a case that hangs on a
+    # changed tree): a violation found by either part is a violation; otherwise "could not decide" stands
+    $B/e1 run $ID --tier $TIER; rc1=$?
+    [ $rc -eq 1 -o $rc1 -eq 1 ] && exit 1
+    [ $rc -ne 0 ] && exit $rc
+    exit $rc1 ;;
   *)
     run_seq $ID "${EXTRA[@]}"; exit $? ;;
 esac
